@@ -125,13 +125,15 @@ Section Eval.
           end
       end.
 
-    Definition compare_link (op : cmpop) (lv rv : value) : outcome * value :=
+    (* one link: date-coerce the two operands for this link only, then compare *)
+    Definition compare_link (op : cmpop) (lv rv : value) : outcome :=
       match coerce_dates lv rv with
-      | (Val l', Val r') => (cmp_apply op l' r', r')
-      | (Val _, o) => (o, rv)
-      | (o, _) => (o, rv)
+      | (Val l', Val r') => cmp_apply op l' r'
+      | (Val _, o) => o
+      | (o, _) => o
       end.
 
+    (* the next link compares against the right operand as written (not its date-parsed form) *)
     Definition eval_compare := fix go (rest : list (cmpop * pyast)) (lv : value) (sc : scope) : res :=
       match rest with
       | [] => (Val (VBool true), sc)
@@ -139,8 +141,8 @@ Section Eval.
           match ev c sc with
           | (Val rv, sc1) =>
               match compare_link op lv rv with
-              | (Val v, carried) => if truthy v then go more carried sc1 else (Val (VBool false), sc1)
-              | (o, _) => (o, sc1)
+              | Val v => if truthy v then go more rv sc1 else (Val (VBool false), sc1)
+              | o => (o, sc1)
               end
           | bad => bad
           end
